@@ -4,8 +4,10 @@ Fault enumeration over packet histories on the real packet-level decoder (harnes
 for every test stream and EVERY audio packet index k: drop (with / without a packetno gap), duplicate (same number / renumbered),
 replace by every other packet j (bytes only / bytes+granulepos+eos), zero-length, EVERY byte truncation, EVERY single-bit flip,
 every header packet injected (numbered / renumbered); restart: every (history length h, restart point k) with the history taken
-from the stream itself and from a twin stream (same encoder setup, different signal).  thorough adds longer streams and pairs of
-disturbances (all simple pairs k1<k2; all bit flips of packet k2 after a structural disturbance 1..3 packets earlier).
+from the stream itself and from a twin stream (same encoder setup, different signal); page level through vorbisfile: every audio
+page dropped / CRC broken / delivered twice, seekable and streaming; one ASan pass over all flips+truncations of the smallest stream.
+thorough adds longer streams and pairs of disturbances (all simple pairs k1<k2; all bit flips and truncations of packet k2 after a
+structural disturbance 1..3 packets earlier).  Exemptions E (end trim) and S (start trim) are documented in the executor.
 Oracle: per-packet output chunks (count + bit-exact floats) of every clean packet other than the disturbed one and the first one
 delivered after the disturbance equal the clean decode."""
 import os, sys, json, time, random, subprocess, collections
@@ -215,8 +217,6 @@ def run_phase(chk, acc, exe, cases, paths, recs, infos, flavour, tag, extra=()):
 # ------------------------------------------------------------------ main
 def run(tier):
     chk = vlib.Check(PID, tier, 'fault_enumeration')
-    t0 = time.time()
-    deadline = t0 + (22 * 60 if tier == 'thorough' else 150)
     vlib.build('plain', 'asan')
     exe = vlib.harness('plain', 'c11_damage')
     exe_asan = vlib.harness('asan', 'c11_damage')
@@ -224,6 +224,8 @@ def run(tier):
     recs = recipes(fams)
     paths = make_streams(recs)
     infos = stream_info(exe, paths)
+    # the quick tier is sized to fit its budget and is never cut; thorough stops starting new phases 21 min after the build
+    deadline = time.time() + float(os.environ.get('C11_THOROUGH_DEADLINE_S', 21 * 60)) if tier == 'thorough' else None   # env override only for a completeness run on a loaded machine
     # --- preconditions on the zoo (vacuity guards)
     okzoo = True
     for f in fams:
@@ -249,24 +251,45 @@ def run(tier):
     exhaustive = True
     phases_done = []
 
+    def est(line):
+        """rough cost of a case line in packet decodes (only used to slice phases so that the deadline can cut between slices)"""
+        f = line.split()
+        si = int(f[0])
+        n = infos[si]['packets']
+        kind, k, a, b = (f[1], int(f[2]), int(f[3]), int(f[4])) if len(f) == 5 else (f[5], int(f[6]), int(f[7]), int(f[8]))
+        if kind == 'flip':
+            return ((b if b >= 0 else infos[si]['lens'][k]) - a) * 8 * n
+        if kind == 'trunc':
+            return infos[si]['lens'][k] * n
+        if kind == 'restart':
+            return (infos[a]['packets'] + 1) * (infos[a]['packets'] // 2 + n - k)
+        return n
+
+    SLICE = 4000000 if deadline is not None else 10 ** 18
+
     def phase(name, cases, flavour='plain'):
         nonlocal exhaustive
-        if time.time() > deadline:
-            exhaustive = False
-            phases_done.append(name + ':SKIPPED(deadline)')
-            return
         ts = time.time()
-        run_phase(chk, acc, exe if flavour == 'plain' else exe_asan, cases, paths, recs, infos, flavour, 'c11' + name)
+        done = 0
+        i = 0
+        while i < len(cases):
+            if deadline is not None and time.time() > deadline:
+                exhaustive = False
+                phases_done.append(f'{name}:CUT by deadline after {done} of {len(cases)} case lines')
+                return
+            j, c = i, 0
+            while j < len(cases) and (c < SLICE or j == i):
+                c += est(cases[j][0])
+                j += 1
+            run_phase(chk, acc, exe if flavour == 'plain' else exe_asan, cases[i:j], paths, recs, infos, flavour, 'c11' + name)
+            done += j - i
+            i = j
         phases_done.append(f'{name}:{len(cases)} case lines:{time.time() - ts:.1f}s')
 
-    # --- single disturbances, all streams of the tier, both granule styles
-    singles = []
-    for f in fams:
-        e, p, t = [i for i, r in enumerate(recs) if r['family'] == f]
-        singles += single_cases(e, infos[e], [t], e)
-        singles += single_cases(p, infos[p], [t], p)
-    # biggest first helps the tail of the static sharding
-    phase('single', singles)
+    def fam_idx(f):
+        return [i for i, r in enumerate(recs) if r['family'] == f]
+
+    quick_fams = ['a8k', 'b16k', 'c44k', 'd8k_imp', 'e8k_alt']
     # --- page-level damage through vorbisfile (all streams incl. twins)
     pgc = []
     for si in range(len(recs)):
@@ -282,24 +305,40 @@ def run(tier):
                 asan_cases.append((f'{si} flip {k} {lo} {min(L, lo + FLIP_CHUNK)}', (si, 'flip_asan', k)))
             asan_cases.append((f'{si} trunc {k} 0 -1', (si, 'trunc_asan', k)))
     phase('asan', asan_cases, 'asan')
+    # --- single disturbances, quick families, both granule styles (one phase: better load balance)
+    singles = []
+    for f in quick_fams:
+        e, p, t = fam_idx(f)
+        singles += single_cases(e, infos[e], [t], e)
+        singles += single_cases(p, infos[p], [t], p)
+    phase('single', singles)
     if tier == 'thorough':
-        for f in ['a8k', 'b16k', 'c44k']:
-            for st in (0, 1):
-                si = [i for i, r in enumerate(recs) if r['family'] == f][st]
-                phase(f'pairs_simple_{f}_{recs[si]["style"]}', pair_cases_simple(si, infos[si]))
-        for f in ['a8k', 'c44k', 'b16k']:
+        # pairs of disturbances: every k1<k2 x 7x7 simple operations
+        for f in ['a8k', 'd8k_imp', 'b16k', 'e8k_alt', 'c44k']:
             for st in (1, 0):
-                si = [i for i, r in enumerate(recs) if r['family'] == f][st]
+                si = fam_idx(f)[st]
+                phase(f'pairs_simple_{f}_{recs[si]["style"]}', pair_cases_simple(si, infos[si]))
+        # every bit flip / truncation of packet k2 after a structural disturbance 1..3 packets earlier
+        for f in ['a8k', 'd8k_imp', 'c44k', 'e8k_alt', 'b16k']:
+            for st in (1, 0):
+                si = fam_idx(f)[st]
                 phase(f'pairs_flip_{f}_{recs[si]["style"]}', pair_cases_flip(si, infos[si]))
+        # longer streams: all single disturbances (split so that the deadline cuts at a phase boundary)
+        for f in ['a8k_long', 'b16k_clicks', 'c44k_long']:
+            e, p, t = fam_idx(f)
+            for si in (p, e):
+                cs = single_cases(si, infos[si], [t], si)
+                phase(f'single_{f}_{recs[si]["style"]}_structural', [c for c in cs if c[1][1] not in ('flip', 'trunc')])
+                phase(f'single_{f}_{recs[si]["style"]}_flip_trunc', [c for c in cs if c[1][1] in ('flip', 'trunc')])
 
     # --- coverage
-    nontrivial = sorted(s for s, c in acc.by.items() if c['obs'] > 0 and (c['acc'] > 0 or s[1] in ('dropgap', 'drop') or s[1].startswith('pair_')))
+    nontrivial = sorted(s for s, c in acc.by.items() if c['obs'] > 0 and (c['acc'] > 0 or s[1] in ('dropgap', 'drop') or s[1].startswith(('pair_', 'pg'))))
     T = acc.tot
     flips = acc.kinds['flip']
     samples = []
     for s in nontrivial[::max(1, len(nontrivial) // 10)][:10]:
         c = acc.by[s]
-        samples.append({'stream': recs[s[0]]['name'], 'kind': s[1], 'k': s[2], 'block': infos[s[0]]['blocks'][s[2]], 'damaged_histories': c['n'], 'accepted': c['acc'], 'rejected': c['rej'], 'observable': c['obs'], 'blocksize_changed': c['bsz']})
+        samples.append({'stream': recs[s[0]]['name'], 'kind': s[1], 'k': s[2], 'block': (infos[s[0]]['blocks'][s[2]] if not s[1].startswith('pg') else 'page'), 'damaged_histories': c['n'], 'accepted': c['acc'], 'rejected': c['rej'], 'observable': c['obs'], 'blocksize_changed': c['bsz']})
     # transitions covered at damaged indices with an accepted, observable flip
     trans_hit = set()
     for s, c in acc.by.items():
@@ -313,7 +352,7 @@ def run(tier):
     chk.cov.update({
         'distinct_nontrivial': len(nontrivial),
         'rule': 'distinct (stream, kind, k) cases in which the damaged/extra packet was accepted by vorbis_synthesis (for drops: the packet was withheld) AND the output chunk of packet k or k+1 '
-                'differed from the clean decode, i.e. the damage was observable; every such case still had all other chunks bit-identical',
+                'differed from the clean decode, i.e. the damage was observable (page-level cases: total output changed); every such case still had all other chunks bit-identical',
         'samples': samples,
         'exhaustive': exhaustive,
         'damaged_histories_decoded': T['n'],
